@@ -98,6 +98,30 @@ def still_open():
                 equiv.REPO_DEFINED[0] = frozenset()
                 if q in gate.apply(ast.parse(cur), ast.parse(ref), lambda t: None):
                     out.append((20 + n, 'gate: ' + title))
+        # round 3 (refinements made to win back tolerance): r3_findings_<n>.py, same(a, b, **kw) and GATE_FINDINGS
+        for n in (1, 2, 3):
+            fn = os.path.join(here, f'r3_findings_{n}.py')
+            if not os.path.exists(fn):
+                continue
+            spec = importlib.util.spec_from_file_location(f'redteam_r3_{n}', fn)
+            m = importlib.util.module_from_spec(spec)
+            with contextlib.redirect_stdout(io.StringIO()):
+                spec.loader.exec_module(m)
+            equiv.REPO_DEFINED[0] = frozenset()
+            for title, a, b, kw in m.FINDINGS:
+                total += 1
+                try:
+                    s = m.same(a, b, **(kw or {}))
+                except equiv.NotCanonicalisable:
+                    s = False
+                if s:
+                    out.append((30 + n, title))
+            for entry in getattr(m, 'GATE_FINDINGS', []):
+                title, cur, ref, q = entry[:4]
+                total += 1
+                equiv.REPO_DEFINED[0] = frozenset()
+                if q in gate.apply(ast.parse(cur), ast.parse(ref), lambda t: None):
+                    out.append((30 + n, 'gate: ' + title))
     finally:
         equiv.REPO_DEFINED[0] = saved
     return out, total
